@@ -1,0 +1,17 @@
+//go:build verif
+
+// Verification hook for the TLS app (build tag `verif` only; add-only, no
+// behaviour of the normal build depends on this file).
+
+package caddytls
+
+// VerifManaging returns a copy of the unexported TLS.managing map: the
+// subjects Manage has handed to certmagic so far, with the issuer key
+// recorded for each (empty unless the policy's only issuer is internal).
+func (t *TLS) VerifManaging() map[string]string {
+	out := make(map[string]string, len(t.managing))
+	for k, v := range t.managing {
+		out[k] = v
+	}
+	return out
+}
